@@ -30,6 +30,7 @@ pub fn dispatch(ctx: &Ctx, rest: &[String]) -> i32 {
         "C15" => c15::run(ctx),
         "C16" => c16::run(ctx),
         "C19" => c19::run(ctx),
+        "probe-c07" => probe::c07_forced_rollback(ctx),
         "C19-stress" => c19::stress_child(ctx, rest),
         "C17" => c17::run(ctx),
         "C06-child" => c06::child(ctx, rest),
@@ -186,6 +187,7 @@ fn c18(ctx: &Ctx) -> i32 {
 }
 
 pub mod c02win;
+pub mod probe;
 pub mod c03;
 pub mod c04;
 pub mod c05;
